@@ -27,6 +27,29 @@ EXPLANATION = (
 RULE_TEXT = "one obligation per def-use / shape fact; non-trivial = reaching definitions, must-pass-through, linear normal forms"
 
 
+def _default_resort_of(e, given):
+    """sorted(given) / sorted(str(p) for p in given) / sorted(map(str, given)) - default ordering of the same elements."""
+    if not (isinstance(e, ast.Call) and isinstance(e.func, ast.Name) and e.func.id == "sorted" and len(e.args) == 1 and not e.keywords):
+        return False
+    a = e.args[0]
+    if isinstance(a, ast.Name) and a.id == given:
+        return True
+    if isinstance(a, (ast.GeneratorExp, ast.ListComp)) and len(a.generators) == 1 and not a.generators[0].ifs and isinstance(a.generators[0].iter, ast.Name) \
+            and a.generators[0].iter.id == given and isinstance(a.generators[0].target, ast.Name):
+        v = a.generators[0].target.id
+        return norm(a.elt) in (v, "str(%s)" % v, "os.fspath(%s)" % v)
+    if isinstance(a, ast.Call) and isinstance(a.func, ast.Name) and a.func.id == "map" and len(a.args) == 2 and norm(a.args[0]) in ("str", "os.fspath") and norm(a.args[1]) == given:
+        return True
+    return False
+
+
+def _only_about(expr, var, self_name):
+    """The expression mentions the loop variable and, besides it, only self attributes / locals derived elsewhere - but no
+    other element of the listing (no second loop variable, no index arithmetic on the list)."""
+    names = {x.id for x in ast.walk(expr) if isinstance(x, ast.Name)}
+    return var in names and not any(isinstance(x, (ast.ListComp, ast.GeneratorExp, ast.Lambda)) for x in ast.walk(expr))
+
+
 def end_of_iteration(ctx, rid, nx):
     """Every `raise StopIteration` of the v1 hasher is the exhaustion of the last file (empty read and no next file)."""
     # zero read -> next file or stop, inside a loop
@@ -113,8 +136,13 @@ def same_enumeration(ctx):
         pv = ent.get("path")
         ok_path = isinstance(pv, ast.Call) and isinstance(pv.func, ast.Attribute) and pv.func.attr == "split" and pv.args and norm(pv.args[0]) == "os.sep" \
             and isinstance(pv.func.value, ast.Call) and C.is_ext_call(ctx, pv.func.value, fn, ("os.path.relpath",)) and [norm(a) for a in pv.func.value.args] == [var, "self.path"]
-        ctx.decide("C01.3", fn, ok_len and ok_path and set(ent) == {"length", "path"}, "entry (%s): length = getsize(p), path = relpath(p, root) of the same p" % kind,
-                   "entry (%s) records length %s and path %s: not the exact size and relative path of one and the same file" % (kind, norm(ent.get("length")), norm(pv)), d_)
+        if ok_len and ok_path and set(ent) == {"length", "path"}:
+            ctx.holds("C01.3", fn, "entry (%s): length = getsize(p), path = relpath(p, root) of the same p" % kind, d_)
+        elif ok_len and set(ent) == {"length", "path"} and pv is not None and _only_about(pv, var, fn.self_name):
+            # another way of cutting the root off the same path: equivalent or not depends on how the listing spells its entries
+            ctx.undecided("C01.3", fn, "entry (%s): the relative path is computed as %s, which the extractor cannot compare with relpath(p, root)" % (kind, norm(pv)), d_)
+        else:
+            ctx.violated("C01.3", fn, "entry (%s) records length %s and path %s: not the exact size and relative path of one and the same file" % (kind, norm(ent.get("length")), norm(pv)), d_)
     # single file
     st = [n for n in own_nodes(fn.node) if isinstance(n, ast.Assign) and isinstance(n.targets[0], ast.Subscript) and const_str(n.targets[0].slice) == "length" and "info" in norm(n.targets[0].value)]
     for s in st:
@@ -180,7 +208,10 @@ def enumeration(ctx):
     for r in lists:
         v = r.value.elts[1]
         srt = isinstance(v, ast.Call) and C.is_ext_call(ctx, v, fn, ("builtins.sorted",)) and not v.keywords and len(v.args) == 1
-        ctx.decide("C01.2", fn, srt, "the file list is returned sorted() with default ordering", "the file list is returned as %s: order depends on the operating system / a custom key" % norm(v), r)
+        # for C01 any order does - both views read this one list (C01.1); which order it is matters to whoever re-orders a copy
+        ctx.info.setdefault("listing_order", []).append("default" if srt else norm(v))
+        ctx.holds("C01.2", fn, "the file list is returned %s; info.files and the hashed stream both follow it (that the order is reproducible is C08's subject)" % (
+            "sorted() with default ordering" if srt else "as " + norm(v)), r)
     for r in single:
         sz, lst = r.value.elts
         if isinstance(sz, ast.Name):
@@ -229,9 +260,18 @@ def v1_hasher(ctx):
     # buffers and slice discipline
     slice_discipline(ctx, "C01.6", [nx, hp], consts)
     # __next__ buffer = piece_length
-    bufs = [n for n in own_nodes(nx.node) if isinstance(n, ast.Assign) and isinstance(n.value, ast.Call) and norm(n.value.func) == "bytearray"]
-    ok = len(bufs) == 1 and norm(bufs[0].value.args[0]) == PL
-    ctx.decide("C01.6", nx, ok, "read buffer is piece_length bytes", "read buffer is bytearray(%s), not piece_length" % (norm(bufs[0].value.args[0]) if bufs else "?"), bufs[0] if bufs else nx.node)
+    gx = C.cfg_of(nx)
+    rdx = ReachDefs(nx, gx)
+    reads = [n for n in own_nodes(nx.node) if isinstance(n, ast.Assign) and isinstance(n.value, ast.Call) and isinstance(n.value.func, ast.Attribute) and n.value.func.attr == "readinto"
+             and n.value.args and isinstance(n.value.args[0], ast.Name)]
+    if len(reads) != 1:
+        ctx.undecided("C01.6", nx, "expected one readinto in the v1 hasher's __next__, found %d" % len(reads))
+    else:
+        cap, fresh = buffer_info(ctx, nx, gx, rdx, reads[0].value.args[0].id, C.stmt_node(ctx, nx, reads[0]))
+        if cap is None:
+            ctx.undecided("C01.6", nx, "capacity of the read buffer could not be determined", reads[0])
+        else:
+            ctx.decide("C01.6", nx, cap == PL, "read buffer is piece_length bytes", "read buffer is bytearray(%s), not piece_length" % cap, reads[0])
     g = C.cfg_of(nx)
     SZ = end_of_iteration(ctx, "C01.6", nx)
     # partial hand-over: called for size < piece_length with piece[:size]
@@ -242,11 +282,27 @@ def v1_hasher(ctx):
         ok = any(t == "%s < %s" % (SZ, PL) and lab == "true" for t, lab in conds)
         ctx.decide("C01.6", nx, ok, "a read shorter than the piece length is continued across files", "the cross-file continuation is entered under %s" % conds, c)
     # _handle_partial: stitching loop
-    arr = [p for p in hp.params if p != hp.self_name][0]
     wl = [n for n in own_nodes(hp.node) if isinstance(n, ast.While)]
+    arr = None
+    if len(wl) == 1:
+        for a in C.atoms_of(wl[0].test):
+            if isinstance(a, ast.Compare) and len(a.ops) == 1 and isinstance(a.ops[0], ast.Lt) and isinstance(a.left, ast.Call) and norm(a.left.func) == "len" \
+                    and len(a.left.args) == 1 and isinstance(a.left.args[0], ast.Name) and norm(a.comparators[0]) == PL:
+                arr = a.left.args[0].id
     if len(wl) != 1:
         ctx.undecided("C01.6", hp, "stitching loop not found")
+    elif arr is None:
+        ctx.violated("C01.6", hp, "stitching loop condition is `%s`: must be `len(piece) < piece_length and next_file()` in that order (else a file is opened and skipped when the piece is already full)" % norm(wl[0].test), wl[0].test)
     else:
+        # the piece being stitched starts as exactly the bytes read: the parameter (handed buf[:n], judged by the slice
+        # discipline at the call) or a local defined as p[:s] from the (buffer, count) parameters
+        params = [p for p in hp.params if p != hp.self_name]
+        if arr not in params:
+            ds = [n for n in own_nodes(hp.node) if isinstance(n, ast.Assign) and len(n.targets) == 1 and isinstance(n.targets[0], ast.Name) and n.targets[0].id == arr]
+            okd = len(ds) == 1 and isinstance(ds[0].value, ast.Subscript) and isinstance(ds[0].value.slice, ast.Slice) and ds[0].value.slice.lower is None \
+                and isinstance(ds[0].value.value, ast.Name) and ds[0].value.value.id in params and isinstance(ds[0].value.slice.upper, ast.Name) and ds[0].value.slice.upper.id in params
+            if not okd:
+                ctx.undecided("C01.6", hp, "the piece being stitched (%r) is not the parameter nor a prefix slice of it" % arr, ds[0] if ds else hp.node)
         t = wl[0].test
         atoms = [norm(a) for a in C.atoms_of(t)]
         ok = isinstance(t, ast.BoolOp) and isinstance(t.op, ast.And) and "len(%s) < %s" % (arr, PL) in atoms and any(a.endswith("next_file()") for a in atoms) \
@@ -305,45 +361,153 @@ def v1_hasher(ctx):
     ok = len(o0) == 1 and norm(o0[0].args[0]) == "self.paths[0]" and len(i0) == 1 and norm(i0[0].value) == "0"
     ctx.decide("C01.6", init, ok, "hashing starts at paths[0] with index 0", "hashing does not start at paths[0] / index 0", o0[0] if o0 else init.node)
     pa = [n for n in own_nodes(init.node) if isinstance(n, ast.Assign) and norm(n.targets[0]) == "self.paths"]
-    ok = len(pa) == 1 and norm(pa[0].value) == init.params[1]
-    ctx.decide("C01.6", init, ok, "the hasher keeps the list it was given, unchanged", "the hasher stores %s instead of the list it was given" % (norm(pa[0].value) if pa else "?"), pa[0] if pa else init.node)
+    given = init.params[1]
+    if len(pa) == 1 and norm(pa[0].value) in (given, "list(%s)" % given, "%s[:]" % given):
+        ctx.holds("C01.6", init, "the hasher keeps the list it was given, unchanged", pa[0])
+    elif len(pa) == 1 and _default_resort_of(pa[0].value, given):
+        # a default re-sort is the identity exactly when the list it is given is in default order already
+        orders = ctx.info.get("listing_order", [])
+        if orders and all(o == "default" for o in orders):
+            ctx.holds("C01.6", init, "the hasher re-sorts the list it is given with the default ordering, which is the order the listing already has", pa[0])
+        elif orders:
+            ctx.violated("C01.6", init, "the hasher re-sorts its copy of the file list (%s) while info.files keeps the listing's own order (%s): whenever the two orders differ the pieces hash the files in "
+                         "another order than the one listed" % (norm(pa[0].value), orders[0]), pa[0])
+        else:
+            ctx.undecided("C01.6", init, "the hasher re-sorts its copy of the file list; the order of the listing is not known", pa[0])
+    else:
+        ctx.violated("C01.6", init, "the hasher stores %s instead of the list it was given" % (norm(pa[0].value) if pa else "?"), pa[0] if pa else init.node)
+
+
+def _attr_alloc(ctx, fn, attr):
+    """(capacity text, where) of `self.attr = bytearray(E)` when that is the attribute's only definition in the class."""
+    cls = fn.cls
+    if cls is None:
+        return None
+    defs = []
+    for c in ctx.prog.mro(cls):
+        for m in c.methods.values():
+            for n in own_nodes(m.node):
+                if isinstance(n, ast.Assign):
+                    for t in n.targets:
+                        if isinstance(t, ast.Attribute) and t.attr == attr and isinstance(t.value, ast.Name) and t.value.id == m.self_name:
+                            defs.append((m, n))
+    if len(defs) != 1:
+        return None
+    m, n = defs[0]
+    v = n.value
+    if not (isinstance(v, ast.Call) and norm(v.func) == "bytearray" and len(v.args) == 1):
+        return None
+    e = v.args[0]
+    if isinstance(e, ast.Name) and e.id in m.params:
+        # self.x = x stored in the same constructor: the parameter is the attribute
+        for k in own_nodes(m.node):
+            if isinstance(k, ast.Assign) and isinstance(k.value, ast.Name) and k.value.id == e.id:
+                for t in k.targets:
+                    if isinstance(t, ast.Attribute) and isinstance(t.value, ast.Name) and t.value.id == m.self_name:
+                        return "%s.%s" % (fn.self_name, t.attr)
+        return None
+    return norm(e).replace(m.self_name + ".", fn.self_name + ".", 1) if m.self_name else norm(e)
+
+
+def buffer_info(ctx, fn, g, rdf, buf, rn):
+    """(capacity text | None, fresh) of the buffer `buf` at the read node: fresh = a new zero-filled bytearray is allocated
+    for every execution of the read (so whatever lies beyond the bytes read is zero, not the previous piece)."""
+    defs = rdf.reaching(buf, rn)
+    caps = set()
+    fresh = bool(defs)
+    for d in defs:
+        v = d.value if d.kind == "assign" else None
+        if isinstance(v, ast.Call) and norm(v.func) == "bytearray" and len(v.args) == 1:
+            caps.add(norm(v.args[0]))
+            # re-allocated between two executions of the read?
+            nxt = [s for s, _ in rn.succ]
+            again = any(rn in g.reachable(s) for s in nxt)
+            if again and not all(g.must_pass(s, rn, {d.node}) for s in nxt if rn in g.reachable(s)):
+                fresh = False
+        elif isinstance(v, ast.Attribute) and isinstance(v.value, ast.Name) and v.value.id == fn.self_name:
+            cap = _attr_alloc(ctx, fn, v.attr)
+            caps.add(cap)
+            fresh = False
+        else:
+            caps.add(None)
+            fresh = False
+    cap = caps.pop() if len(caps) == 1 else None
+    return cap, fresh
 
 
 def slice_discipline(ctx, rid, fns, consts):
-    """A buffer filled by n = f.readinto(buf) is consumed as buf[:n] unless the path implies n == len(buf)."""
+    """A buffer filled by n = f.readinto(buf) is consumed as buf[:n] unless the path implies n == len(buf).  A whole-buffer
+    use elsewhere is the bytes read followed by whatever the buffer held before: zeros if it is allocated anew for every
+    read (a zero-extension - legitimate only where padding to the piece length is the specification, i.e. under the align
+    switch), the previous piece otherwise."""
     sites = 0
     for fn in fns:
         g = C.cfg_of(fn)
+        rdf = ReachDefs(fn, g)
         for rd in [n for n in own_nodes(fn.node) if isinstance(n, ast.Assign) and isinstance(n.value, ast.Call) and isinstance(n.value.func, ast.Attribute)
                    and n.value.func.attr == "readinto" and n.value.args and isinstance(n.value.args[0], ast.Name) and isinstance(n.targets[0], ast.Name)]:
             buf, sz = rd.value.args[0].id, rd.targets[0].id
             rn = C.stmt_node(ctx, fn, rd)
-            alloc = [n for n in own_nodes(fn.node) if isinstance(n, ast.Assign) and norm(n.targets[0]) == buf and isinstance(n.value, ast.Call) and norm(n.value.func) == "bytearray" and n.value.args]
-            cap = norm(alloc[0].value.args[0]) if len(alloc) == 1 else None
-            for use in own_nodes(fn.node):
-                if not (isinstance(use, ast.Name) and use.id == buf and isinstance(use.ctx, ast.Load)):
-                    continue
-                par = ctx.prog.parent.get(use)
-                if par is rd.value:
-                    continue
-                un = C.stmt_node(ctx, fn, use)
-                if un is None or un not in g.reachable(rn) or un is rn:
-                    continue
-                sites += 1
-                if isinstance(par, ast.Subscript) and isinstance(par.slice, ast.Slice) and par.slice.lower is None and norm(par.slice.upper) == sz:
-                    ctx.holds(rid, fn, "buffer %r is consumed as %s[:%s]" % (buf, buf, sz), par)
-                    continue
-                # whole-buffer use: the path must imply sz == capacity
-                full = False
-                for b, lab in g.control_deps(un):
-                    t = C.test_expr(b)
-                    if t is None or not isinstance(t, ast.Compare) or norm(t.left) != sz:
-                        continue
-                    r = norm(t.comparators[0])
-                    if r == cap and ((isinstance(t.ops[0], ast.Lt) and lab == "false") or (isinstance(t.ops[0], ast.Eq) and lab == "true") or (isinstance(t.ops[0], ast.GtE) and lab == "true")):
-                        full = True
-                ctx.decide(rid, fn, full, "whole buffer %r is used only where %s == %s is implied" % (buf, sz, cap),
-                           "buffer %r is used whole (%s) although only the first %s bytes were just read: stale bytes of the previous read are hashed" % (buf, norm(par)[:50], sz), par)
+            cap, fresh = buffer_info(ctx, fn, g, rdf, buf, rn)
+            sites += _buffer_uses(ctx, rid, fn, g, buf, sz, rn, rd.value, cap, fresh, 0)
+    return sites
+
+
+def _buffer_uses(ctx, rid, fn, g, buf, sz, rn, skip, cap, fresh, depth):
+    sites = 0
+    reach = g.reachable(rn) if rn is not None else g.live_nodes()
+    for use in own_nodes(fn.node):
+        if not (isinstance(use, ast.Name) and use.id == buf and isinstance(use.ctx, ast.Load)):
+            continue
+        par = ctx.prog.parent.get(use)
+        if par is skip:
+            continue
+        un = C.stmt_node(ctx, fn, use)
+        if un is None or un not in reach or un is rn:
+            continue
+        if isinstance(par, ast.Call) and isinstance(par.func, ast.Name) and par.func.id == "len":
+            continue
+        sites += 1
+        if isinstance(par, ast.Subscript) and isinstance(par.slice, ast.Slice) and par.slice.lower is None and norm(par.slice.upper) == sz:
+            ctx.holds(rid, fn, "buffer %r is consumed as %s[:%s]" % (buf, buf, sz), par)
+            continue
+        # handed on together with its fill count: judged inside the callee
+        if isinstance(par, ast.Call) and depth < 2 and any(isinstance(a, ast.Name) and a.id == sz for a in par.args):
+            tg = [t for t in C.targets_of(ctx, fn, par)]
+            if tg:
+                for t in tg:
+                    ps = [x for x in t.params if x != t.self_name]
+                    bi = [i for i, a in enumerate(par.args) if a is use]
+                    si = [i for i, a in enumerate(par.args) if isinstance(a, ast.Name) and a.id == sz]
+                    if bi and si and max(bi[0], si[0]) < len(ps):
+                        sites += _buffer_uses(ctx, rid, t, C.cfg_of(t), ps[bi[0]], ps[si[0]], None, None, cap.replace(fn.self_name + ".", t.self_name + ".") if cap and fn.self_name and t.self_name else cap, fresh, depth + 1)
+                    else:
+                        ctx.undecided(rid, fn, "buffer %r is handed to %s in a way that is not understood" % (buf, t.name), par)
+                continue
+        # whole-buffer use: the path must imply sz == capacity
+        full = False
+        aligned = False
+        for b, lab in g.control_deps(un):
+            t = C.test_expr(b)
+            if t is None:
+                continue
+            if isinstance(t, ast.Attribute) and t.attr == "align" and lab == "true":
+                aligned = True
+            if not isinstance(t, ast.Compare) or norm(t.left) != sz:
+                continue
+            r = norm(t.comparators[0])
+            if cap is not None and r == cap and ((isinstance(t.ops[0], ast.Lt) and lab == "false") or (isinstance(t.ops[0], ast.Eq) and lab == "true") or (isinstance(t.ops[0], ast.GtE) and lab == "true")):
+                full = True
+        if full:
+            ctx.holds(rid, fn, "whole buffer %r is used only where %s == %s is implied" % (buf, sz, cap), par)
+        elif cap is None:
+            ctx.undecided(rid, fn, "buffer %r is used whole (%s); its capacity could not be determined" % (buf, norm(par)[:50]), par)
+        elif fresh and aligned:
+            ctx.holds(rid, fn, "under the align switch the freshly allocated buffer %r (%s zero bytes) is used whole: the bytes read followed by zeros up to the capacity" % (buf, cap), par)
+        elif fresh:
+            ctx.violated(rid, fn, "buffer %r is used whole (%s) after a short read outside the align arm: the piece is filled up with zeros where the next file's bytes belong" % (buf, norm(par)[:50]), par)
+        else:
+            ctx.violated(rid, fn, "buffer %r is used whole (%s) although only the first %s bytes were just read: stale bytes of the previous read are hashed" % (buf, norm(par)[:50], sz), par)
     return sites
 
 
@@ -360,7 +524,7 @@ QUICK_CANARIES = True
 CLAIM = {
     "text": "Partial: decides that one sorted, complete enumeration feeds both the file list and the hasher, that lengths and relative paths are those of the same files, that one piece length is "
             "used and recorded, that only SHA-1 digests are produced and all of them concatenated, and the stitching facts of the v1 hasher that are visible as shapes and linear forms "
-            "(buffer sizes, slice discipline, continuation request, loop guard, index hand-over). It does not decide the hash values for all file-size combinations.",
+            "(buffer sizes, slice discipline, continuation request, loop guard, index hand-over). It does not decide the hash values for all file-size combinations. Also decided: every way the v1 hasher ends its iteration is the exhaustion of the last file; a re-sort of the hasher's copy of the list is accepted only when it reproduces the listing's own order; whole-buffer uses are judged with the buffer's capacity and freshness (re-allocated per read or reused).",
     "note": "Not decided: run-time behaviour of the read loops beyond the listed facts. Unrecognised shapes are undecided.",
     "technique": "reaching definitions (one enumeration), must-pass-through, shape facts and integer-linear normal forms of the stitching arithmetic",
     "design_ref": "DESIGN.md section 4, C01",
